@@ -690,8 +690,8 @@ class Tensor(object):
                 1 / self.dim()
             )  # We scale all cores by the same factor to prevent precision issues
             for n in range(self.dim()):
-                result.cores[n].data *= factor
-            result.cores[0].data *= np.sign(other)
+                result.cores[n] = result.cores[n] * factor
+            result.cores[0] = result.cores[0] * np.sign(other)
             return result
 
         if self.batch:
